@@ -5,7 +5,7 @@ package cmap
 // Only compiled with the build tag "verif": access for the verification
 // harness, no behaviour of its own.
 
-func VerifRangeIsValid(first, last []byte) bool { return rangeIsValid(first, last) }
-func VerifRangeIndex(first, last, code []byte) (int, bool) {
+func VerifTrRangeIsValid(first, last []byte) bool { return rangeIsValid(first, last) }
+func VerifTrRangeIndex(first, last, code []byte) (int, bool) {
 	return rangeIndex(first, last, code)
 }
